@@ -1638,6 +1638,124 @@ def check_ravel(ctx, rng, n, batch):
             ctx.count('ravel/unravel:empty-axis')
 
 
+PLAIN_DTYPES = FIELD_DTYPES
+
+
+def plain_case(ctx, case, tmpdir, batch):
+    """write_fits / read_fits on a plain array (every dtype, byte order, layout; .fits and .fits.gz; the `shape` argument):
+    whenever it can be written, reading back gives equal values of the same shape and dtype up to byte order, the array written
+    is not altered, a refused write leaves no file; dtype read and the BITPIX / BZERO cards go to the model (fitsCard)."""
+    import hcipy
+    ok = True
+    shape = tuple(case['shape'])
+    n = int(np.prod(shape))
+    a = apply_layout(with_border(_values(case['dtype'], case['vals'][:n]).reshape(shape), case.get('border')), case.get('layout', 'C'))
+    before = _raw(a)
+    fn = os.path.join(tmpdir, 'plain.' + case['ext'])
+    if os.path.exists(fn):
+        os.remove(fn)
+    key = 'plain-array:%s' % case['ext']
+    newshape = case.get('newshape')
+    try:
+        with warnings.catch_warnings():
+            warnings.simplefilter('ignore')
+            hcipy.write_fits(a, fn, shape=newshape)
+    except Exception as e:  # noqa
+        ctx.count('plain-array:write-refused-' + type(e).__name__)
+        if os.path.exists(fn):
+            ctx.violation('refused-write-leaves-file:' + key, 'write_fits raised %s but left a file behind' % type(e).__name__, {'plain': case})
+            ok = False
+        if _raw(a) != before:
+            ctx.violation('write-alters:' + key, 'a refused write_fits altered the array', {'plain': case})
+            ok = False
+        if isinstance(e, KeyError):
+            batch.append((None, 'dtype', 'C16 dtype fits-image-field %s %s' % (a.dtype.str, _num_list(a)), 'err key'))
+        else:
+            ctx.disagree('C16 plain-array', {'case': case, 'impl': type(e).__name__ + ': ' + str(e)[:80], 'model': 'only dtypes without BITPIX are refused'})
+        return ok
+    if _raw(a) != before:
+        ctx.violation('write-alters:' + key, 'write_fits altered the array being written', {'plain': case})
+        ok = False
+    try:
+        with warnings.catch_warnings():
+            warnings.simplefilter('ignore')
+            b = hcipy.read_fits(fn)
+    except Exception as e:  # noqa
+        ctx.violation(key, 'write_fits succeeded but read_fits raised %s: %s' % (type(e).__name__, str(e)[:80]), {'plain': case})
+        return False
+    want = a.reshape(newshape) if newshape is not None else a
+    if _arr_sig(b) != _arr_sig(want):
+        ctx.violation(key, 'array read back through write_fits/read_fits differs (dtype up to byte order, shape or values)', {'plain': case})
+        ok = False
+    ctx.count('plain-array:%s:written+read' % case['ext'])
+    ctx.count('plain-array-dtype:%s->%s' % (a.dtype.str, b.dtype.str))
+    try:
+        from astropy.io import fits
+        with fits.open(fn, memmap=False, do_not_scale_image_data=True) as hd:
+            h = hd[0].header
+            card = '%d/%d' % (int(h['BITPIX']), int(h.get('BZERO', 0)))
+            raw = np.array(hd[0].data).reshape(a.shape)
+        exp = 'ok read=%s tag=%s holds=true card=%s fits=true stored=%s back=%s' % (b.dtype.str, a.dtype.str.lstrip('<>|='), card, _num_list(raw), _num_list(a))
+        batch.append((None, 'dtype', 'C16 dtype fits-image-field %s %s' % (a.dtype.str, _num_list(a)), exp))
+    except MachineryError:
+        raise
+    except Exception as e:  # noqa
+        ctx.disagree('C16 dtype-observation', {'case': case, 'impl': type(e).__name__, 'model': 'the cards of every FITS file can be read'})
+    return ok
+
+
+def gen_plain(rng):
+    shape = [int(rng.integers(1, 5)) for _ in range(int(rng.integers(1, 4)))]
+    n = int(np.prod(shape))
+    case = {'shape': shape, 'dtype': PLAIN_DTYPES[int(rng.integers(0, len(PLAIN_DTYPES)))], 'vals': [int(x) for x in rng.integers(-12, 13, size=n)],
+            'border': gen_border(rng), 'layout': str(rng.choice(LAYOUTS)), 'ext': 'fits.gz' if rng.random() < 0.4 else 'fits'}
+    if rng.random() < 0.25:
+        case['newshape'] = [n]
+    return case
+
+
+def gridless_case(ctx, case, tmpdir):
+    """a Field without grid: has no dictionary form, so no writer accepts it (AttributeError before anything is written, no file
+    left behind); the in-memory routes return an equal field without grid"""
+    import hcipy
+    ok = True
+    with _NewStyle(case.get('newstyle')):
+        f = hcipy.Field(apply_layout(_values(case['dtype'], case['vals'][:int(np.prod(case['shape']))]).reshape(case['shape']), case.get('layout', 'C')), None)
+    ref = _arr_sig(np.asarray(f))
+    for proto in list(range(pickle.HIGHEST_PROTOCOL + 1)) + ['deepcopy']:
+        try:
+            with _NewStyle(case.get('newstyle')):
+                y = copy.deepcopy(f) if proto == 'deepcopy' else pickle.loads(pickle.dumps(f, protocol=proto))
+            if _arr_sig(np.asarray(y)) != ref or y.grid is not None or type(y) is not type(f):
+                ctx.violation('field:pickle:no-grid', 'a field without grid read back through pickle (%s) differs' % proto, {'gridless': case})
+                ok = False
+        except Exception as e:  # noqa
+            ctx.violation('field:pickle:no-grid', 'pickling a field without grid (%s) raised %s' % (proto, type(e).__name__), {'gridless': case})
+            ok = False
+    for ext in FORMATS:
+        fn = os.path.join(tmpdir, 'nogrid.' + ext)
+        if os.path.exists(fn):
+            os.remove(fn)
+        try:
+            hcipy.write_field(f, fn)
+            try:
+                with _NewStyle(case.get('newstyle')):
+                    y = hcipy.read_field(fn)
+                if _arr_sig(np.asarray(y)) != ref:
+                    ctx.violation('field:%s:no-grid' % FAM_OF[ext], 'a field without grid was written and read back with other values', {'gridless': case})
+                    ok = False
+            except Exception as e:  # noqa
+                ctx.violation('field:%s:no-grid' % FAM_OF[ext], 'a field without grid was written but reading raised ' + type(e).__name__, {'gridless': case})
+                ok = False
+            ctx.count('field-without-grid:%s:written' % ext)
+        except Exception as e:  # noqa
+            ctx.count('field-without-grid:%s:write-refused-%s' % (ext, type(e).__name__))
+            if os.path.exists(fn):
+                ctx.violation('refused-write-leaves-file:field:%s:no-grid' % FAM_OF[ext], 'write_field raised %s but left a file behind' % type(e).__name__, {'gridless': case})
+                ok = False
+    return ok
+
+
 def check_names(ctx, rng, n, batch):
     """_guess_file_format on generated names vs the model's guessFormat"""
     import sys
@@ -1722,6 +1840,16 @@ def run(ctx):
     with tempfile.TemporaryDirectory(prefix='c16_') as tmpdir:
         for spec in specs:
             check_spec(ctx, spec, tmpdir, batch)
+        plains = [{'shape': [2, 3], 'dtype': dt, 'vals': _SEQ, 'border': bo, 'layout': 'C', 'ext': ext}
+                  for dt in PLAIN_DTYPES for bo, ext in (('=', 'fits'), ('>', 'fits.gz'))]
+        plains += [{'shape': [2, 3], 'dtype': 'float64', 'vals': _SEQ, 'layout': 'F', 'ext': 'fits'},
+                   {'shape': [2, 3], 'dtype': 'uint16', 'vals': _SEQ, 'layout': 'neg', 'ext': 'fits.gz', 'newshape': [6]}]
+        plains += [gen_plain(rng) for _ in range(ctx.scale(30, 600))]
+        for case in plains:
+            plain_case(ctx, case, tmpdir, batch)
+        for case in [{'shape': [4], 'dtype': 'float64', 'vals': _SEQ}, {'shape': [2, 3], 'dtype': 'int16', 'vals': _SEQ, 'layout': 'F'},
+                     {'shape': [2, 3], 'dtype': 'complex128', 'vals': _SEQ, 'newstyle': True}]:
+            gridless_case(ctx, case, tmpdir)
     check_ravel(ctx, rng, ctx.scale(50, 1000), batch)
     check_names(ctx, rng, ctx.scale(150, 3000), batch)
     out = ctx.model([b[2] for b in batch])
@@ -1771,6 +1899,9 @@ def run(ctx):
 
 
 def replay(ctx, case):
+    if 'plain' in case or 'gridless' in case:
+        with tempfile.TemporaryDirectory(prefix='c16_') as tmpdir:
+            return plain_case(ctx, case['plain'], tmpdir, []) if 'plain' in case else gridless_case(ctx, case['gridless'], tmpdir)
     with tempfile.TemporaryDirectory(prefix='c16_') as tmpdir:
         obs, fails = round_trips(case['spec'], tmpdir)
     for key, text in fails:
